@@ -41,6 +41,8 @@ type Options struct {
 	Max              int32 `json:"max"`
 	IdleOn           bool  `json:"idleOn"`
 	DisableAlleviate bool  `json:"disableAlleviate"`
+	// PeriodMS: the coordinator's period (--coordinator.interval); 0 as in the repository's own tests
+	PeriodMS int `json:"periodMs,omitempty"`
 }
 
 // TargetSpec is one discovered target and what the explorer says about it.
@@ -82,6 +84,8 @@ type ShardSpec struct {
 	// configuration push): a restarted shard whose head is refilling reports more the second time
 	Head2 int64  `json:"head2,omitempty"`
 	Idle  string `json:"idle"` // expired | fresh  (meaningful when Held is empty)
+	// DelayMS: the shard answers every request correctly, but only after this many milliseconds
+	DelayMS int `json:"delayMs,omitempty"`
 }
 
 // ReplicaSpec is one StatefulSet.
@@ -179,6 +183,9 @@ func (f *fakeShard) get(url string, ret interface{}) error {
 
 // getCore records the request and returns what a healthy answer would carry plus the scripted failure, if any.
 func (f *fakeShard) getCore(path string) (data interface{}, fail error) {
+	if f.spec.DelayMS > 0 {
+		time.Sleep(time.Duration(f.spec.DelayMS) * time.Millisecond)
+	}
 	f.mu.Lock()
 	defer f.mu.Unlock()
 	f.log = append(f.log, Req{Method: "GET", Path: path})
@@ -243,6 +250,9 @@ func (f *fakeShard) post(url string, req interface{}, ret interface{}) error {
 }
 
 func (f *fakeShard) postCore(path string, b []byte) error {
+	if f.spec.DelayMS > 0 {
+		time.Sleep(time.Duration(f.spec.DelayMS) * time.Millisecond)
+	}
 	f.mu.Lock()
 	defer f.mu.Unlock()
 	f.log = append(f.log, Req{Method: "POST", Path: path, Body: append([]byte(nil), b...)})
@@ -549,7 +559,7 @@ func ExecSeq(scs []*Scenario) []*Transcript {
 		MaxProcessSeries: sc0.Opt.MaxProc,
 		MaxShard:         sc0.Opt.Max,
 		MinShard:         sc0.Opt.Min,
-		Period:           0,
+		Period:           time.Duration(sc0.Opt.PeriodMS) * time.Millisecond,
 		DisableAlleviate: sc0.Opt.DisableAlleviate,
 	}
 	if sc0.Opt.IdleOn {
